@@ -7,12 +7,13 @@
                                      Config::effective_prompt_storage
     /repo/src/authorship/post_commit.rs : apply_prompt_storage_mode (the `match` on the effective
                                      mode: strip / redact / upload-then-strip),
-                                     enqueue_prompt_messages_to_cas (only its effect on prompts)
+                                     enqueue_prompt_messages_to_cas (the per-prompt loop; each step may fail)
     /repo/src/authorship/secrets.rs : is_secret_char, extract_tokens, redact_secret,
                                      redact_secrets_in_text, redact_secrets_from_prompts,
                                      strip_prompt_messages
   Not modelled (opaque parameters): glob matching (`Pattern::matches` results are inputs), the
-  entropy classifier `is_random` (`isSecret : Str → Bool`), the CAS queue (`upload`).
+  entropy classifier `is_random` (`isSecret : Str → Bool`), the CAS queue (the outcome of every
+  `enqueue_cas_object` call is an input: `CasRun`).
 
   Text is a `Str` (= Rust `&str`: a sequence of chars, always valid UTF-8); every index the Rust
   code uses is a *byte* offset, so offsets here are byte offsets too (`utf8Len`), and every
@@ -240,26 +241,107 @@ def redactPrompts (isSecret : Str → Bool) : List Prompt → Option (List Promp
     (redactMsgs isSecret p.messages).bind fun (ms, a) =>
     (redactPrompts isSecret ps).bind fun (ps', b) => some ({ p with messages := ms } :: ps', a + b)
 
-/-- Effect of `enqueue_prompt_messages_to_cas` on the prompt map: prompts with messages get a
-    `messages_url` and lose their messages; `upload p = none` is the `?` early return (prompts
-    already processed stay mutated). Returns the map and whether the call returned `Ok`. -/
-def enqueue (upload : Prompt → Option Str) : List Prompt → List Prompt × Bool
-  | [] => ([], true)
-  | p :: ps =>
+/-! ### The `Default` arm: per-session upload to the CAS queue
+
+`enqueue_prompt_messages_to_cas` opens the internal database, then walks the prompt map; for each
+prompt WITH messages it serialises them, enqueues the JSON (`enqueue_cas_object`: a sqlite
+INSERT, which can fail — busy / full / damaged database), sets `messages_url` and clears the
+messages. What happens at a failing step is a *control-flow fact of the source* (`?` = return
+`Err` at once, or log-and-`continue`), read by the extractor into an `EnqShape`; the loop and the
+caller's arm are written once, over the shape, so that the safety theorem and its converse can be
+stated over all shapes. `codeShape` is the shape of the code as it is; `applyStorageMode` uses it. -/
+
+/-- What one iteration of the upload loop meets, for a prompt that has messages. -/
+inductive Outcome where
+  /-- `serde_json::to_value(&messages_obj)` fails -/
+  | serializeErr
+  /-- `db_lock.enqueue_cas_object(..)` fails -/
+  | enqueueErr
+  /-- enqueued; `url` = `{api_base_url}/cas/{hash}` -/
+  | ok (url : Str)
+  deriving Repr, DecidableEq, Inhabited
+
+/-- How a failing step inside the loop is handled. -/
+inductive OnErr where
+  /-- `…?` — the function returns `Err` at once (prompts already processed stay mutated) -/
+  | propagate
+  /-- the error is logged and the loop `continue`s with the next prompt -/
+  | skip
+  deriving Repr, DecidableEq, Inhabited
+
+/-- Control-flow facts of `enqueue_prompt_messages_to_cas` and of the `Default` arm of
+    `apply_prompt_storage_mode` (regenerated from the source: `Extracted.StorageMode.enqueueShape`). -/
+structure EnqShape where
+  /-- a failing `serde_json::to_value` inside the loop -/
+  onSerializeErr : OnErr
+  /-- a failing `enqueue_cas_object` inside the loop -/
+  onEnqueueErr : OnErr
+  /-- after a successful enqueue: `prompt.messages_url = Some(..)` -/
+  setsUrlOnOk : Bool
+  /-- after a successful enqueue: `prompt.messages.clear()` -/
+  clearsOnOk : Bool
+  /-- the arm: `if let Err(_) = enqueue_prompt_messages_to_cas(..) { strip_prompt_messages(..) }` -/
+  stripsOnErr : Bool
+  /-- the arm: `else { strip_prompt_messages(..) }` when no upload is attempted -/
+  stripsWhenNotEnqueueing : Bool
+  deriving Repr, DecidableEq, Inhabited
+
+/-- the code as it is: both failures propagate with `?`, url set and messages cleared after a
+    successful enqueue, the arm strips on `Err` and when not enqueueing -/
+def codeShape : EnqShape := ⟨.propagate, .propagate, true, true, true, true⟩
+
+/-- The `for (_key, prompt) in prompts.iter_mut()` loop. `outs` = what the successive iterations
+    *that have messages* meet, in map order (a vector that is too short = the queue fails from
+    there on). Returns the mutated map and whether the function returns `Ok`. -/
+def enqueueLoop (sh : EnqShape) : List Prompt → List Outcome → List Prompt × Bool
+  | [], _ => ([], true)
+  | p :: ps, outs =>
     if p.messages.isEmpty then
-      let r := enqueue upload ps
+      let r := enqueueLoop sh ps outs
       (p :: r.1, r.2)
-    else match upload p with
-      | none => (p :: ps, false)
-      | some url =>
-        let r := enqueue upload ps
-        ({ p with messagesUrl := some url, messages := [] } :: r.1, r.2)
+    else
+      match outs.headD .enqueueErr with
+      | .ok url =>
+        let r := enqueueLoop sh ps outs.tail
+        ({ p with messagesUrl := if sh.setsUrlOnOk then some url else p.messagesUrl,
+                  messages := if sh.clearsOnOk then [] else p.messages } :: r.1, r.2)
+      | .serializeErr =>
+        match sh.onSerializeErr with
+        | .propagate => (p :: ps, false)
+        | .skip => let r := enqueueLoop sh ps outs.tail; (p :: r.1, r.2)
+      | .enqueueErr =>
+        match sh.onEnqueueErr with
+        | .propagate => (p :: ps, false)
+        | .skip => let r := enqueueLoop sh ps outs.tail; (p :: r.1, r.2)
+
+/-- What one call of `enqueue_prompt_messages_to_cas` meets. -/
+structure CasRun where
+  /-- `InternalDatabase::global()?` and `db.lock()…?` succeed -/
+  dbOpens : Bool
+  /-- per prompt with messages, in map order -/
+  outs : List Outcome
+  deriving Repr, DecidableEq, Inhabited
+
+/-- `enqueue_prompt_messages_to_cas`: the mutated map and whether it returned `Ok`. -/
+def enqueueCas (sh : EnqShape) (cas : CasRun) (ps : List Prompt) : List Prompt × Bool :=
+  if cas.dbOpens then enqueueLoop sh ps cas.outs else (ps, false)
 
 /-- What the `Default` arm reads besides the prompts. -/
 structure UploadEnv where
   /-- `client.is_logged_in() || using_custom_api` -/
   shouldEnqueue : Bool
-  upload : Prompt → Option Str
+  /-- what the upload call meets, per call (arbitrary function of the prompts it is called on:
+      any outcome vector for any commit) -/
+  cas : List Prompt → CasRun
+
+/-- The `PromptStorageMode::Default` arm over a shape. -/
+def defaultArm (sh : EnqShape) (isSecret : Str → Bool) (env : UploadEnv) (ps : List Prompt) :
+    Option (List Prompt) :=
+  if env.shouldEnqueue then
+    (redactPrompts isSecret ps).bind fun r =>
+      let q := enqueueCas sh (env.cas r.1) r.1
+      some (if q.2 then q.1 else if sh.stripsOnErr then stripMessages q.1 else q.1)
+  else some (if sh.stripsWhenNotEnqueueing then stripMessages ps else ps)
 
 /-- `post_commit::apply_prompt_storage_mode`: the `match effective_storage`. -/
 def applyStorageMode (isSecret : Str → Bool) (env : UploadEnv) (mode : Mode) (ps : List Prompt) :
@@ -267,12 +349,27 @@ def applyStorageMode (isSecret : Str → Bool) (env : UploadEnv) (mode : Mode) (
   match mode with
   | .local => some (stripMessages ps)
   | .notes => (redactPrompts isSecret ps).map (·.1)
-  | .default =>
-    if env.shouldEnqueue then
-      (redactPrompts isSecret ps).bind fun r =>
-        let q := enqueue env.upload r.1
-        some (if q.2 then q.1 else stripMessages q.1)
-    else some (stripMessages ps)
+  | .default => defaultArm codeShape isSecret env ps
+
+/-- a shape under which the `Default` arm can never let a message through -/
+def shapeSafe (sh : EnqShape) : Bool :=
+  sh.onSerializeErr == .propagate && sh.onEnqueueErr == .propagate && sh.clearsOnOk &&
+  sh.stripsOnErr && sh.stripsWhenNotEnqueueing
+
+/-- urls of the iterations before the first failing one -/
+def okPrefix : List Outcome → List Str
+  | .ok u :: rest => u :: okPrefix rest
+  | _ => []
+
+/-- specification helper: hand the urls `us`, in order, to the prompts that have messages; when
+    the urls run out, the remaining prompts are untouched -/
+def setUrls : List Prompt → List Str → List Prompt
+  | [], _ => []
+  | p :: ps, us =>
+    if p.messages.isEmpty then p :: setUrls ps us
+    else match us with
+      | [] => p :: ps
+      | u :: us => { p with messagesUrl := some u } :: setUrls ps us
 
 /-- What one arm of the storage-mode `match` does to the messages of the prompts (the
     extractor classifies each arm of the real `match` into one of these). -/
